@@ -353,6 +353,23 @@ Definition m_bind (s : mst) (prefix : option str) (ns : str) (ov rep : bool) : m
         else finish (s, true)
     end.
 
+(* TurtleParser.parse (also N3, TriG): the prefix directives are collected in the dict
+   p._bindings (a re-declared prefix keeps its place and takes the last namespace) and after the
+   document has been read every entry is bound:  for prefix, namespace in p._bindings.items():
+   graph.bind(prefix, namespace)   - override=True, replace=False.  An exception ends the loop. *)
+Definition eff_decls (decls : list (str * str)) : list (str * str) :=
+  fold_left (fun d e => dset d (fst e) (snd e)) decls [].
+Fixpoint m_binds (s : mst) (l : list (str * str)) : mst * option exn :=
+  match l with
+  | [] => (s, None)
+  | (p, n) :: r =>
+      let x := m_bind s (Some p) n true false in
+      match snd x with
+      | Some e => (fst x, Some e)
+      | None => m_binds (fst x) r
+      end
+  end.
+
 Section Manager.
   (* split_uri(uri), split_uri(uri, NAME_START_CATEGORIES), is_ncname *)
   Variables (split split_s : str -> option (str * str)) (ncname : str -> bool).
@@ -497,7 +514,8 @@ Section Manager.
   | ONorm (u : str)
   | OExpand (c : str)
   | OReset
-  | OOther.     (* an operation outside the model (parse, serialize, add); conformance runs only *)
+  | OParse (decls : list (str * str))   (* parse of a Turtle/N3/TriG document with these prefix directives *)
+  | OOther.     (* an operation outside the model (serialize, add, other parsers); conformance runs only *)
 
   Inductive res :=
   | RUnit
@@ -544,6 +562,9 @@ Section Manager.
     | OExpand c =>
         (s, match m_expand s c with inl x => RS x | inr e => RExn e end)
     | OReset => (m_reset s, RUnit)
+    | OParse decls =>
+        let x := m_binds s (eff_decls decls) in
+        (fst x, match snd x with Some e => RExn e | None => RUnit end)
     | OOther => (s, RUnit)
     end.
 
@@ -657,6 +678,9 @@ Definition res_ok (l : list (str * str)) (o : op) (r : res) : bool :=
   | OStrict u _, RT q => qn_ok l u q
   | OExpand c, RS s => expand_ok l c s
   | OReset, RUnit => true
+  | OParse _, RUnit => true
+  | OParse d, RExn EKey => existsb (fun e => has_space (fst e)) (eff_decls d)
+  | OParse _, _ => false
   | OOther, _ => true
   | OBind _ _ _ _, _ => false
   | OReset, _ => false
@@ -698,7 +722,7 @@ Definition exn_ok (sp sps : str -> option (str * str)) (l r : list (str * str)) 
       | ONorm u => exn_eqb e EValue && negb (valid_uri u)
       | OExpand c => exn_eqb e EValue &&
                      match split_colon c with None => true | Some (pre, _) => is_none (dget l pre) end
-      | OBind _ _ _ _ | OReset => true      (* judged by res_ok *)
+      | OBind _ _ _ _ | OReset | OParse _ => true      (* judged by res_ok *)
       | OOther => negb (exn_eqb e ELoop)
       end
   | _ => true
